@@ -71,7 +71,7 @@ Section Scalar.
       + assert (Hpos : tol < residR s eo (ubR s eo)).
         { rewrite resid_ub in *. rewrite Rabs_pos_eq in Hnz by lra. lra. }
         assert (Hb : resid Yf mu s eo eo * resid Yf mu s eo (ubR s eo) < 0).
-        { rewrite !resid_R, resid_lb. nra. }
+        { rewrite (resid_R s eo eo), (resid_R s eo (ubR s eo)), resid_lb. assert (0 < (s - Yf eo) * residR s eo (ubR s eo)) by (apply Rmult_lt_0_compat; lra). lra. }
         destruct (result_in_bracket _ _ _ _ _ _ _ _ _ _ _ _ _ _ Hb E) as ((Hlo & Hhi) & _).
         rewrite Rmin_left in Hlo by lra. rewrite Rmax_right in Hhi by lra. split; [lra|].
         assert (Hc : cv = true) by (apply Hx; discriminate).
@@ -108,6 +108,30 @@ Section Scalar.
     unfold delta_eqps_gen. destruct (is_yielding Yf tol (s - 3 * mu * d) (eo + d)) eqn:Ey.
     - apply yielding_spec in Ey. lra.
     - unfold_num. q2r. reflexivity.
+  Qed.
+
+  (* the elastic-branch threshold must be the root tolerance: with a threshold thr in the yield test, the overstress left after a
+     step is bounded by max(thr, tol), and a threshold above tol leaves states outside the yield surface by exactly thr *)
+  Definition delta_thr (thr s eo : R) : option R :=
+    if Rltb thr (s - Yf eo) then @delta_eqps_gen R NumR Yf dYf mu tol s eo else Some 0.
+  Lemma delta_thr_tol s eo : delta_thr tol s eo = @delta_eqps_gen R NumR Yf dYf mu tol s eo.
+  Proof.
+    unfold delta_thr, delta_eqps_gen. destruct (is_yielding Yf tol s eo) eqn:Ey.
+    - apply yielding_spec in Ey. replace (Rltb tol (s - Yf eo)) with true by (symmetry; apply Rltb_true; exact Ey). reflexivity.
+    - destruct (Rltb tol (s - Yf eo)); [|unfold_num; q2r]; reflexivity.
+  Qed.
+  Theorem threshold_bound thr s eo d : (tol < s - Yf eo -> Yf eo <= Yf (ubR s eo)) ->
+    delta_thr thr s eo = Some d -> (s - 3 * mu * d) - Yf (eo + d) <= Rmax thr tol.
+  Proof.
+    intros Hm. unfold delta_thr. rcases_on (Rltb thr (s - Yf eo)); intros H.
+    - destruct (yield_consistent s eo d Hm H) as (A & _). pose proof (Rmax_r thr tol). lra.
+    - inversion H; subst d. rewrite Rmult_0_r, Rminus_0_r, Rplus_0_r. pose proof (Rmax_l thr tol). lra.
+  Qed.
+  Theorem threshold_tight thr eo : tol < thr ->
+    delta_thr thr (Yf eo + thr) eo = Some 0 /\ tol < (Yf eo + thr - 3 * mu * 0) - Yf (eo + 0).
+  Proof.
+    intros H. unfold delta_thr. replace (Rltb thr (Yf eo + thr - Yf eo)) with false by (symmetry; apply Rltb_false; lra).
+    split; [reflexivity|]. rewrite Rplus_0_r. lra.
   Qed.
 
   Lemma ub_above s eo : tol < s - Yf eo -> eo < ubR s eo.
@@ -296,4 +320,17 @@ Proof.
   - unfold is_yielding, h_flow. unfold_num. apply Rltb_true. lra.
   - unfold delta_eqps_gen, is_yielding. unfold_num. replace (Rltb (1 / 10) (1 - 1)) with false by (symmetry; apply Rltb_false; lra).
     q2r. reflexivity.
+Qed.
+
+Lemma elastic_threshold (Yf dYf : R -> R) (mu tol : R) : 0 < mu -> 0 <= tol ->
+  (forall s eo, delta_thr Yf dYf mu tol tol s eo = @delta_eqps_gen R NumR Yf dYf mu tol s eo) /\
+  (forall thr s eo d, (tol < s - Yf eo -> Yf eo <= Yf (eo + (s - Yf eo) / (3 * mu))) ->
+     delta_thr Yf dYf mu tol thr s eo = Some d -> (s - 3 * mu * d) - Yf (eo + d) <= Rmax thr tol) /\
+  (forall thr eo, tol < thr ->
+     delta_thr Yf dYf mu tol thr (Yf eo + thr) eo = Some 0 /\ tol < (Yf eo + thr - 3 * mu * 0) - Yf (eo + 0)).
+Proof.
+  intros Hmu Htol. split; [|split].
+  - intros. apply delta_thr_tol.
+  - intros thr s eo d. apply threshold_bound; assumption.
+  - intros thr eo. apply threshold_tight.
 Qed.
